@@ -33,6 +33,28 @@ def configs(tier):
     return out
 
 
+def order_configs(tier):
+    """Row-order clause: 2 looms x 2 processes, every assignment of the ranks 0..3 to the four processes (and no ranks at all),
+    with PIDs whose string order (proc.10 < proc.9) differs from the numeric one, so that stream enumeration order,
+    PID order, rank order and loom-name order all disagree somewhere."""
+    out = []
+    perms = [None] + list(itertools.permutations(range(4)))
+    for pids in (((9, 10), (10, 9)), ((10, 9), (9, 10))) if tier != "quick" else (((9, 10), (10, 9)),):
+        for perm in perms:
+            spec = []
+            k = 0
+            for li, lname in enumerate(("a", "z")):
+                procs = []
+                for pi in range(2):
+                    pid = pids[li][pi] + 100 * li
+                    procs.append({"pid": pid, "app": 1, "rank": (perm[k] if perm else None), "nranks": (4 if perm else None),
+                                  "threads": [1000 * (li + 1) + pid]})
+                    k += 1
+                spec.append({"name": lname, "cpus": [(0, 1 + 4 * li), (1, 0 + 4 * li)], "procs": procs})
+            out.append(spec)
+    return out
+
+
 def expected_rows(spec):
     """Documented order: looms by name or (if every loom has ranks) by minimum rank; processes by rank or pid;
     threads by tid; CPUs per loom by physical id, virtual CPU last."""
@@ -191,6 +213,10 @@ def run(prop, tier):
                 rels, hs = histories(spec, cat, gold, model, tier)
                 for (hname, hist, flags) in hs:
                     jobs.append((ci, spec, model, hname, hist, flags, rels))
+        nmain = len(configs(tier))
+        for ci, spec in enumerate(order_configs(tier)):
+            rels, hs = histories(spec, cat, gold, "ovni", tier)
+            jobs.append((nmain + ci, spec, "ovni", hs[0][0], hs[0][1], hs[0][2], rels))
         base = scratch.sub("runs")
 
         def one(j):
@@ -233,11 +259,12 @@ def run(prop, tier):
                               {"kind": kind})
         ctx.add(states=nacc, traces_validated_against_impl=nacc)
         ctx.cov["distinct_type_value_pairs"] = len(allpairs)
-        ctx.part("sweep", configurations=len(configs(tier)), models=len(models), runs=len(jobs), accepted=nacc)
+        ctx.part("sweep", row_order_configurations=len(order_configs(tier)), configurations=len(configs(tier)), models=len(models), runs=len(jobs), accepted=nacc)
         ctx.sample({"config": configs(tier)[-1], "model": "nosv", "history": "tasks"})
         ctx.cov["rule"] = ("looms 1-2 x processes 1-2 x threads 1-2 x CPUs 1-2 x rank on/off (rank order reversed w.r.t. name order, physical ids "
                            "reversed w.r.t. indices) x 8 models x {plain, every enter/leave pair on all threads, nesting, tasks with shared and private "
-                           "type labels per process, breakdown (-b), flush, affinity}; every accepted trace's .prv/.pcf/.row validated")
+                           "type labels per process, breakdown (-b), flush, affinity}; plus the row-order family: 2 looms x 2 processes with every assignment of "
+                           "ranks 0-3 (or none) and PIDs whose string and numeric orders differ; every accepted trace's .prv/.pcf/.row validated")
         ctx.cov["distinct_nontrivial"] = nacc
         ctx.assumptions += ["histories are materialised by lib/obs.py and run through the real ovniemu binary built from the tree"]
         return ctx.finish()
